@@ -188,7 +188,7 @@ class MessagePackDocument(HierDictDocument):
         if isinstance(value, (six.text_type, six.binary_type)):
             return super(MessagePackDocument, self) \
                                                 .integer_from_bytes(cls, value)
-        return value
+        return self._ret_number(cls, value)
 
     def integer_to_bytes(self, cls, value, **_):
         # if it's inside the range msgpack can deal with
